@@ -86,3 +86,45 @@ Definition smon_exact (c : scase) : bool :=
 
 Definition sdiffs (l : list scase) := bad_idx sdiff_case l.
 Definition smons (l : list scase) := mon_idx [smon_exact] l.
+
+(* command line (driver "diskflag"): the operator's --min-space-required as given on the real command
+   line ([None]: not given) and config.MinSpaceRequired - the number the guard passes to checkThreshold -
+   as the real flag -> viper -> InitConfig path delivered it. *)
+Record fcase := FC { f_given : option fl; f_used : fl }.
+Definition fl_zero (f : fl) : bool := match f with FFin _ m _ => m =? 0 | _ => false end.
+Definition fl_eqb (a c : fl) : bool :=
+  match a, c with
+  | FNaN, FNaN => true
+  | FInf x, FInf y => Bool.eqb x y
+  | FFin n m e, FFin n' m' e' =>
+      (fl_zero a && fl_zero c) || (Bool.eqb n n' && (m =? m') && (e =? e'))   (* the harness emits odd mantissas *)
+  | _, _ => false
+  end.
+Definition f_operator (c : fcase) : fl := match f_given c with Some g => g | None => FFin false 0 0 end.
+Definition optZ_eqb (a c : option Z) : bool :=
+  match a, c with Some x, Some y => x =? y | None, None => true | _, _ => false end.
+(* The command line path as a function: [cli_delivers], the operator's value as it is (zero when not given).
+   Before /repo commit 55466e0 (fixes/C18-min-space-20.diff) a left-over alias block of handleFlagsAliases()
+   (`GetInt("msr") != 20 && GetInt("min-space-required") == 20`, there is no "msr" flag) overwrote exactly
+   the value 20 with 0: [cli_delivers_orig], kept with its refutation.  Correspondence and monitor constrain
+   every value, 20 included. *)
+Definition fl_zero_v : fl := FFin false 0 0.
+Definition fl_twenty (f : fl) : bool := fl_eqb f (FFin false 5 2).
+Definition cli_delivers (given : option fl) : fl := match given with Some g => g | None => fl_zero_v end.
+Definition cli_delivers_orig (given : option fl) : fl :=
+  match given with Some g => if fl_twenty g then fl_zero_v else g | None => fl_zero_v end.
+Lemma cli_delivers_orig_refuted :
+  exists g, fl_eqb (cli_delivers_orig (Some g)) g = false
+            /\ threshold_int (1024 * GiB) (cli_delivers_orig (Some g)) <> threshold_int (1024 * GiB) g.
+Proof. exists (FFin false 5 2). split; [reflexivity | vm_compute; discriminate]. Qed.
+
+(* correspondence: the threshold the model computes from what the guard uses = the threshold for what the
+   command line path delivers, on a small and on a large volume *)
+Definition fdiff_case (c : fcase) : bool :=
+  negb (forallb (fun total => optZ_eqb (threshold_int total (f_used c))
+                                       (threshold_int total (cli_delivers (f_given c))))
+                [100 * GiB; 1024 * GiB]).
+(* monitor 0: value given on the command line = value the guard uses, exactly *)
+Definition fmon_exact (c : fcase) : bool := fl_eqb (f_operator c) (f_used c).
+Definition fdiffs (l : list fcase) := bad_idx fdiff_case l.
+Definition fmons (l : list fcase) := mon_idx [fmon_exact] l.
